@@ -30,7 +30,7 @@ func TestMain(m *testing.M) {
 	evid.Init(prop, "exploration",
 		"inputs: random bytes over a syntax-biased alphabet, random token sequences, generated valid programs with one token deleted/duplicated/replaced/swapped, unterminated strings and escapes, malformed numbers, nesting to depth 2000, script literals harvested from the repository's tests with the same mutations. Oracle: ParsePipeline returns exactly one of (non-nil statement list with non-nil nodes, nil error) or (*errchain.PlError naming the script, 0<=Pos<=len(src), Ln/Col = independent computation); nothing printed by the parser's internal recover; lexer items cover the source in order without overlap, gaps only blanks. Non-trivial: rejected with a diagnostic, or accepted with >=3 tokens; distinct by token-kind sequence.",
 		"Go runtime stack limits are not platypus behaviour: nesting bounded at 2000",
-		"a hang is detected by the go test timeout and reported by the driver as inconclusive (exit 2) together with the input last written to the heartbeat file")
+		"termination: a lex/parse call still running after 30 s (expected: microseconds) is recorded as a violation with its input by a watchdog goroutine")
 	f, err := os.CreateTemp("", "c05-stderr")
 	if err == nil {
 		stderrFile = f
@@ -185,11 +185,14 @@ func one(t rk.Failer, slot, class, src string) {
 		b, _ := json.Marshal(mkReplay(src))
 		_ = os.WriteFile(heartbeat, b, 0o644)
 	}
+	evid.Watch(slot, "lexing / parsing", mkReplay(src))
 	lmsg, kinds, ntok := checkLexer(src)
 	if lmsg != "" {
+		evid.Unwatch()
 		rk.Fail(t, slot, mkReplay(src), "lexer: %s", lmsg)
 	}
 	msg, accepted := checkParse(src)
+	evid.Unwatch()
 	if msg != "" {
 		rk.Fail(t, slot, mkReplay(src), "%s", msg)
 	}
